@@ -18,6 +18,7 @@ var monitors = map[string]func(*core.Child){
 	"c18": codec.C18,
 	"c11": idlmon.C11,
 	"c07": idlmon.C07,
+	"c09": idlmon.C09,
 }
 
 func main() { core.ChildMain(monitors) }
